@@ -18,46 +18,138 @@ theorem SimG.of_runsEq {s s' : Engine} {g : Graph} (hG : SimG s g) (hr : RunsEq 
   · intro n k hd; rw [RunEq.npropRuns hr]; exact hG.nprops n k hd
   · intro r nm a b k hn ha hb; rw [h3] at hn; rw [RunEq.epropRuns hr]; exact hG.eprops r nm a b k hn ha hb
 
+/-- segment bookkeeping: every segment in the file is published, ids are distinct -/
+structure SegOK (s : Engine) : Prop where
+  store : s.segStore = s.segs
+  nodup : (s.segs.map (·.id)).Nodup
+
+theorem find_id_self (segs : List Seg) (hn : (segs.map (·.id)).Nodup) :
+    ∀ g ∈ segs, segs.find? (·.id == g.id) = some g := by
+  induction segs with
+  | nil => intro g hg; cases hg
+  | cons a as ih =>
+    intro g hg
+    rw [List.map_cons, List.nodup_cons] at hn
+    rcases List.mem_cons.mp hg with rfl | h
+    · simp [List.find?_cons]
+    · have hne : (a.id == g.id) = false := by
+        apply beq_false_of_ne
+        intro heq
+        exact hn.1 (heq ▸ List.mem_map.mpr ⟨g, h, rfl⟩)
+      rw [List.find?_cons, hne]
+      exact ih hn.2 g h
+
+theorem mapM_find_self (store : List Seg) (segs : List Seg)
+    (h : ∀ g ∈ segs, store.find? (·.id == g.id) = some g) :
+    (segs.map (·.id)).mapM (findSeg store) = .ok segs := by
+  induction segs with
+  | nil => rfl
+  | cons a as ih =>
+    have ha : findSeg store a.id = .ok a := by
+      unfold findSeg; rw [h a List.mem_cons_self]
+    rw [List.map_cons, List.mapM_cons, ha, ih (fun g hg => h g (List.mem_cons_of_mem _ hg))]
+    rfl
+
+theorem RunsEq.txid_mem {a b : List Run} (h : RunsEq a b) : ∀ r ∈ a, ∃ r' ∈ b, r.txid = r'.txid := by
+  induction h with
+  | nil => intro r hr; cases hr
+  | cons hr _ ih =>
+    intro r hm
+    rcases List.mem_cons.mp hm with rfl | h'
+    · exact ⟨_, List.mem_cons_self, hr.txid⟩
+    · obtain ⟨r', hr', he⟩ := ih r h'
+      exact ⟨r', List.mem_cons_of_mem _ hr', he⟩
+
+theorem segs_max_ge (gs : List Seg) : ∀ a : Nat, a ≤ gs.foldl (fun m g => max m g.id) a ∧
+    ∀ g ∈ gs, g.id ≤ gs.foldl (fun m g => max m g.id) a := by
+  induction gs with
+  | nil => intro a; exact ⟨Nat.le_refl _, fun g h => by cases h⟩
+  | cons x xs ih =>
+    intro a
+    obtain ⟨h1, h2⟩ := ih (max a x.id)
+    refine ⟨Nat.le_trans (Nat.le_max_left _ _) h1, ?_⟩
+    intro g hg
+    rcases List.mem_cons.mp hg with rfl | h'
+    · exact Nat.le_trans (Nat.le_max_right _ _) h1
+    · exact h2 g h'
+
+/-- **reopen, general form**: from an engine that satisfies `Rec` and `SegOK` and whose external-id map
+    can be rebuilt from the node table (every published segment is found in the file), `open` on its
+    files succeeds; the reopened engine has the same
+    segments, store, root, interner, vectors and label vectors, an idmap rebuilt from the node table,
+    runs that no read can tell from the old ones, and satisfies `Rec` again -/
+theorem reopen_rec {s : Engine} (hR : Rec s)
+    (hK : ∀ g ∈ s.segs, s.segStore.find? (·.id == g.id) = some g)
+    (hload : ∀ x, (IdMap.load s.idmap.i2e).lookup x = s.idmap.lookup x) :
+    ∃ s', s.reopen = .ok s' ∧ s'.segs = s.segs ∧ s'.segStore = s.segStore ∧ s'.store = s.store ∧
+      s'.propsRoot = s.propsRoot ∧ s'.interner = s.interner ∧ s'.vecs = s.vecs ∧ s'.epoch = s.epoch ∧
+      s'.ckptTxid = s.ckptTxid ∧ s'.wal = s.wal ∧
+      s'.idmap = { IdMap.load s.idmap.i2e with i2l := s.idmap.i2l } ∧ RunsEq s'.runs s.runs ∧ Rec s' ∧
+      (∀ g ∈ s'.segs, g.id < s'.nextSegId) := by
+  obtain ⟨⟨txs, hb, hl, hs, hg, b1, b2, b3⟩, hp, ha⟩ := hR
+  obtain ⟨sc1, sc2, sc3, sc4⟩ := hs
+  have hcov : ∀ x iid, s.idmap.lookup x = some iid → (IdMap.load s.idmap.i2e).lookup x = some iid := by
+    intro x iid hx; rw [hload x]; exact hx
+  obtain ⟨R, hRg, hE⟩ := hg (IdMap.load s.idmap.i2e) [] hcov (by simp [IdMap.load])
+  let m' : IdMap := { IdMap.load s.idmap.i2e with i2l := s.idmap.i2l ++ [] }
+  let s' : Engine :=
+    { wal := s.wal, idmap := m', interner := s.interner, runs := R.reverse, segs := s.segs, segStore := s.segStore,
+      store := s.store, vecs := s.vecs, nextTxid := max ((scanRecovery txs).maxTxid + 1) 1,
+      nextSegId := max (s.segs.foldl (fun m g => max m g.id) 0 + 1) 1, epoch := s.epoch,
+      ckptTxid := s.ckptTxid, propsRoot := s.propsRoot }
+  have hfind := mapM_find_self s.segStore s.segs hK
+  have hopen : s.reopen = .ok s' := by
+    unfold Engine.reopen Engine.open
+    have e1 : replayCommitted s.disk.wal none [] = .ok txs := hb.parse
+    have e3 : replayGraph txs s.ckptTxid (IdMap.load s.disk.i2e) = .ok (m', R) := hRg
+    have e4 : (List.map (fun x => x.id) s.segs).mapM (findSeg s.disk.segStore) = .ok s.segs := hfind
+    simp only [e1, hl, sc1, sc2, sc3, sc4, e3, e4, bind, Except.bind, pure, Except.pure]
+    rfl
+  have hlk : ∀ x, s'.idmap.lookup x = s.idmap.lookup x := hload
+  refine ⟨s', hopen, rfl, rfl, rfl, rfl, rfl, rfl, rfl, rfl, rfl, ?_, hE, ?_, ?_⟩
+  rotate_left 2
+  · intro g hg
+    show g.id < max (s.segs.foldl (fun m g => max m g.id) 0 + 1) 1
+    have := (segs_max_ge s.segs 0).2 g hg
+    omega
+  · show ({ IdMap.load s.idmap.i2e with i2l := s.idmap.i2l ++ [] } : IdMap) = _
+    rw [List.append_nil]
+  · refine ⟨⟨txs, hb, hl, ⟨sc1, sc2, sc3, sc4⟩, ?_, b1, ?_, ?_⟩, Nat.le_max_right _ _, ?_⟩
+    · intro m0 T hc hi
+      have hc' : ∀ x iid, s.idmap.lookup x = some iid → m0.lookup x = some iid := by
+        intro x iid hx; exact hc x iid (by rw [hlk x]; exact hx)
+      obtain ⟨R0, h1, h2⟩ := hg m0 T hc' hi
+      refine ⟨R0, ?_, h2.trans hE.symm⟩
+      show replayGraph txs s.ckptTxid m0 = .ok ({ m0 with i2l := (s.idmap.i2l ++ []) ++ T }, R0)
+      rw [List.append_nil]; exact h1
+    · intro r hr
+      obtain ⟨r', hr', he⟩ := hE.txid_mem r hr
+      rw [he]; exact b2 r' hr'
+    · show (scanRecovery txs).maxTxid < max ((scanRecovery txs).maxTxid + 1) 1
+      omega
+    · intro r hr
+      obtain ⟨r', hr', he⟩ := hE.txid_mem r hr
+      rw [he]; exact ha r' hr'
+
 /-- **reopen**: from an engine that satisfies `Sim` and `Rec`, `open` on its files succeeds and the
     reopened engine satisfies `Sim` for the SAME Spec graph, and `Rec` again -/
 theorem reopen_sim {s : Engine} {g : Graph} (hS : Sim s g) (hR : Rec s) :
     ∃ s', s.reopen = .ok s' ∧ Sim s' g ∧ Rec s' := by
-  obtain ⟨⟨txs, hb, hl, hs, hg⟩, hp⟩ := hR
-  obtain ⟨sc1, sc2, sc3, sc4⟩ := hs
-  have hcov : ∀ x iid, s.idmap.lookup x = some iid → (IdMap.load s.idmap.i2e).lookup x = some iid := by
-    intro x iid hx; rw [load_lookup_eq hS.L x]; exact hx
-  obtain ⟨R, hRg, hE⟩ := hg (IdMap.load s.idmap.i2e) [] hcov (by simp [IdMap.load])
-  let m' : IdMap := { IdMap.load s.idmap.i2e with i2l := s.idmap.i2l ++ [] }
-  let s' : Engine :=
-    { wal := s.wal, idmap := m', interner := s.interner, runs := R.reverse, segs := [], segStore := s.segStore,
-      store := s.store, vecs := s.vecs, nextTxid := max ((scanRecovery txs).maxTxid + 1) 1,
-      nextSegId := 1, epoch := 0, ckptTxid := 0, propsRoot := 0 }
-  have hopen : s.reopen = .ok s' := by
-    unfold Engine.reopen Engine.open
-    have e1 : replayCommitted s.disk.wal none [] = .ok txs := hb.parse
-    have e3 : replayGraph txs 0 (IdMap.load s.disk.i2e) = .ok (m', R) := hRg
-    simp only [e1, hl, e3, sc1, sc2, sc3, sc4, bind, Except.bind, List.mapM_nil, pure, Except.pure,
-      List.foldl_nil]
-    rfl
-  have hlk : ∀ x, s'.idmap.lookup x = s.idmap.lookup x := fun x => load_lookup_eq hS.L x
-  refine ⟨s', hopen, ⟨?_, ?_⟩, ?_⟩
-  · exact hS.G.of_runsEq hE rfl rfl rfl
+  obtain ⟨s', hopen, h1, _, _, h4, h5, _, _, _, _, hid, hE, hR', _⟩ :=
+    reopen_rec hR (by rw [hS.G.segs]; intro g hg; cases hg) (load_lookup_eq hS.L)
+  have hlk : ∀ x, s'.idmap.lookup x = s.idmap.lookup x := by
+    intro x; rw [hid]; exact load_lookup_eq hS.L x
+  have hi2e : s'.idmap.i2e = s.idmap.i2e := by rw [hid]; rfl
+  have hi2l : s'.idmap.i2l = s.idmap.i2l := by rw [hid]
+  refine ⟨s', hopen, ⟨?_, ?_⟩, hR'⟩
+  · exact hS.G.of_runsEq hE (by rw [h1]; exact hS.G.segs) (by rw [h4]; exact hS.G.root) h5
   · have hL := hS.L
-    refine { lenE := hL.lenE, lenL := by show (s.idmap.i2l ++ []).length = _; rw [List.append_nil]; exact hL.lenL,
-             e2i := fun x => (hlk x).trans (hL.e2i x), extPt := hL.extPt, extLt := hL.extLt, extNZ := hL.extNZ,
-             extND := hL.extND, extIdND := hL.extIdND, labels := ?_, labelsInt := hL.labelsInt,
-             labelsLt := hL.labelsLt, deadLt := hL.deadLt, small := hL.small, i2lOK := ?_ }
-    · intro n lid nm; show _ → _ → _ → (lid ∈ ((s.idmap.i2l ++ [])[n]?).getD [] ↔ _)
-      rw [List.append_nil]; exact hL.labels n lid nm
-    · intro n l; show l ∈ ((s.idmap.i2l ++ [])[n]?).getD [] → _
-      rw [List.append_nil]; exact hL.i2lOK n l
-  · refine ⟨⟨txs, hb, hl, ⟨sc1, sc2, sc3, sc4⟩, ?_⟩, Nat.le_max_right _ _⟩
-    intro m0 T hc hi
-    have hc' : ∀ x iid, s.idmap.lookup x = some iid → m0.lookup x = some iid := by
-      intro x iid hx; exact hc x iid (by rw [hlk x]; exact hx)
-    obtain ⟨R0, h1, h2⟩ := hg m0 T hc' hi
-    refine ⟨R0, ?_, h2.trans hE.symm⟩
-    show replayGraph txs 0 m0 = .ok ({ m0 with i2l := (s.idmap.i2l ++ []) ++ T }, R0)
-    rw [List.append_nil]; exact h1
+    refine { lenE := by rw [hi2e]; exact hL.lenE, lenL := by rw [hi2l]; exact hL.lenL,
+             e2i := fun x => (hlk x).trans (hL.e2i x), extPt := by rw [hi2e]; exact hL.extPt,
+             extLt := hL.extLt, extNZ := hL.extNZ,
+             extND := hL.extND, extIdND := hL.extIdND, labels := ?_, labelsInt := by rw [h5]; exact hL.labelsInt,
+             labelsLt := hL.labelsLt, deadLt := hL.deadLt, small := by rw [h5]; exact hL.small, i2lOK := ?_ }
+    · intro n lid nm; rw [hi2l, h5]; exact hL.labels n lid nm
+    · intro n l; rw [hi2l, h5]; exact hL.i2lOK n l
 
 end Nervus.Storage
